@@ -168,6 +168,7 @@ package engine
 //@   ensures at: result.startFileOffset == fileOffset && result.currentFileOffset == fileOffset && result.startLineNum == lineNumber && result.startColumnNum == columnNumber && result.reader == reader && result.filename == filename && result.currentMatch == ""
 //@   ensures stacks: len(result.backtrack.store) == 0 && len(result.loopStack.store) == 0 && len(result.variableStack.store) == 0 && len(result.callStack.store) == 0
 
+//@ pred sameLoopState(a LoopState, b LoopState) := a.loopId == b.loopId && a.callLevel == b.callLevel && a.iterationStep == b.iterationStep && a.name == b.name && a.loopMatchIndexStart == b.loopMatchIndexStart
 //@ func (*SearchEngineState).Copy [C03 C09 C10 C02]
 //@   requires es != nil && es.loopStack != nil && es.backtrack != nil && es.variableStack != nil && es.callStack != nil && es.environment.Value != nil
 //@   ensures fresh: result != nil && fresh(result) && fresh(result.loopStack) && fresh(result.backtrack) && fresh(result.variableStack) && fresh(result.callStack)
@@ -176,7 +177,15 @@ package engine
 //@        && result.startColumnNum == es.startColumnNum && result.reader == es.reader && result.filename == es.filename
 //@   ensures stacks: len(result.backtrack.store) == len(es.backtrack.store) && len(result.loopStack.store) == len(es.loopStack.store) && len(result.variableStack.store) == len(es.variableStack.store) && len(result.callStack.store) == len(es.callStack.store)
 //@   ensures snapshots: forall i :: { result.backtrack.store[i] } 0 <= i && i < len(es.backtrack.store) ==> result.backtrack.store[i] == es.backtrack.store[i]
-//@   ensures loops: forall i :: { result.loopStack.store[i] } 0 <= i && i < len(es.loopStack.store) ==> result.loopStack.store[i] == es.loopStack.store[i]
+//@   ensures loops: forall i :: { result.loopStack.store[i] } 0 <= i && i < len(es.loopStack.store) ==> sameLoopState(result.loopStack.store[i], es.loopStack.store[i])
+//@   ensures loopvars: forall i :: { result.loopStack.store[i] } 0 <= i && i < len(es.loopStack.store) ==> fresh(result.loopStack.store[i].variables.Value) && domain(result.loopStack.store[i].variables.Value) == domain(es.loopStack.store[i].variables.Value) [C02]
+//@   presumes loopmaps: forall i :: { es.loopStack.store[i] } 0 <= i && i < len(es.loopStack.store) ==> es.loopStack.store[i].variables.Value != nil
+//@   loop 1 invariant loopStack != nil && fresh(loopStack) && (fresh(loopStack.store) || len(loopStack.store) == 0) && len(loopStack.store) == len(es.loopStack.store) && 0 <= i && i <= len(loopStack.store)
+//@   loop 1 invariant forall k :: { loopStack.store[k] } 0 <= k && k < len(loopStack.store) ==> sameLoopState(loopStack.store[k], es.loopStack.store[k])
+//@   loop 1 invariant forall k :: { loopStack.store[k] } 0 <= k && k < i ==> fresh(loopStack.store[k].variables.Value) && domain(loopStack.store[k].variables.Value) == domain(es.loopStack.store[k].variables.Value) [C02]
+//@   loop 1 invariant forall k :: { loopStack.store[k] } i <= k && k < len(loopStack.store) ==> loopStack.store[k].variables == es.loopStack.store[k].variables
+//@   loop 1 invariant forall k :: { es.loopStack.store[k] } 0 <= k && k < len(es.loopStack.store) ==> es.loopStack.store[k] == old(es.loopStack.store[k])
+//@   loop 1 decreases len(loopStack.store) - i
 //@   ensures calls: forall i :: { result.callStack.store[i] } 0 <= i && i < len(es.callStack.store) ==> result.callStack.store[i] == es.callStack.store[i]
 //@   ensures self: result.backtrack.store.ref != result.ref || result.backtrack.store.ref == 0
 //@   ensures isolated: es.environment.Value != nil ==> fresh(result.environment.Value) && domain(result.environment.Value) == domain(es.environment.Value) [C02 C03]
